@@ -48,12 +48,59 @@ distances under that one set) are judged there, "M" = the run is also compared w
     keyword / reordered / two-argument calls; result == plain
   gambit.query.query_parse (what `query GENOMES` rests on): db    api-query_parse                                 P M
     loaded three ways, params / kwargs, file_labels, parse_kw
-  one process serving many command lines with changing            all random streams (one process, random order)  -
-    databases / files (stale state)
+  one process serving many command lines with changing            seq-command-lines-over-shared-files,            P M
+    databases / files (stale state)                               seq-query_parse-over-shared-objects (see "state and aliasing")
   NOT covered: `dist --dump-params` (hidden debugging option, writes no result); `gambit.query.query()` and
   `jaccarddist_matrix()` called directly with foreign signatures (no exit status: outside the statement -- they do not
   look at the parameters at all, the guard lives in the command line only); --qdir/--rdir/--ldir (C08's subject).
-  FOUND (and repaired in /repo): see known_defect() -- a signature file whose kmerspec_k attribute is an unsigned 8-bit integer."""
+  FOUND (and repaired in /repo): see known_defect() -- a signature file whose kmerspec_k attribute is an unsigned 8-bit integer.
+
+State and aliasing (audit).  A single call on fresh objects cannot see a cache keyed too coarsely, a value written back
+into an object of the caller, state a failed call leaves behind.  Entry points the property is observed through, and every
+object they receive or create that can outlive one call:
+
+  entry point                          long-lived / caller-supplied object                          a  b  c  d  e   stream
+  gambit.cli.cli: dist, query, tree,   the click command objects (module globals) and the declared  S  S  S  S  -   seq
+    signatures create  (in process;      defaults / envvars of their options
+    `python -m gambit` = one call per  DEFAULT_KMERSPEC as bound in gambit.kmers, cli.common,        S  S  S  S  -   seq
+    process: real-process stream)        cli.dist, cli.signatures ("parameters not given")
+                                       CLIContext (ctx.obj: lazily opened engine / sessionmaker /    S  -  S  S  -   seq (two databases per script,
+                                         signatures; one per invocation as found)                                      directory rewritten in place)
+                                       module / class / function-attribute state of cli.common,      S  -  S  S  -   seq
+                                         cli.dist, cli.query, cli.tree, cli.signatures, gambit.query
+                                         (none as found: whatever a change adds)
+                                       os.environ (GAMBIT_DB_PATH), the env mapping and the           S  S  S  S  -   seq
+                                         argument list handed to the command, the working directory
+                                       signature files (--qs/--rs/-s; HDF5, the handle is never      S  S  S  S  -   seq (ONE path per side,
+                                         closed by the command), the database directory (SQLite +                      rewritten in place with other
+                                         refs.gs), genome files, list files (click.File handles)                       parameters / container)
+                                       the output file (-o)                                           documented to be written: judged per step as before
+                                       OpenMP thread count (set by -c, process-wide)                  not a source of k-mer parameters: not judged
+                                       worker processes of calc_file_signatures (pool per call)      -  -  -  -  S   seq (forked after earlier steps ran)
+  common.kspec_from_params             its result (DEFAULT_KMERSPEC itself, or a new frozen          S  S  S  S  -   seq (kspec steps; every -k/-p)
+                                         KmerSpec); arguments are immutable
+  gambit.query.query_parse             db (ReferenceDatabase: ORM objects in a session, HDF5-backed  A  A  A  A  A   apiseq
+                                         signatures, sig_indices), files (list / tuple / caller's
+                                         own sequence), file_labels (list), params (QueryParams,
+                                         a mutable attrs object), parse_kw (dict), the QueryResults
+                                         it returned earlier
+  a = reused by >= 2 calls whose other arguments differ (other database / parameters / size: the 'extra' database variant
+  holds two more signatures than genomes), in both orders (scripts are also run reversed);  b = compared after every call
+  with a copy taken before (files: sha1; objects: vars() / observable fields; process-wide state: process_state());
+  c = calls that fail part-way (refused mismatch, signature file / database cut in the middle, a genome that does not exist
+  in the middle of a list, a caller's sequence that raises while iterated, labels that do not fit) followed by a good call --
+  the one that ran before the failure or another -- on the same objects;  d = a step repeated later in the script must have
+  the same outcome (status, error class, recognised parameters, numbers);  e = 30% of the query_parse scripts run in a second
+  thread, parse_kw asks for threads / processes (fork after earlier calls); the command line is not advertised as callable
+  from threads.  S = stream seq, A = stream apiseq; before the audit all of a-d were '-' (every case built its own objects;
+  the process was shared by all cases, so hidden state could fail a LATER single-call case whose replay did not reproduce).
+  A script is 2-6 steps over three parameter sets, two of which differ in one prefix letter only; every step is judged by
+  the evaluator and verdict() of its single-call kind (predicate run_ok, declarative spec, model).  Every script runs in a
+  fork of a template process that has imported the implementation but never run it (start_template_process): the script
+  carries its whole history, in the campaign as in a replay.  The sequence streams run first.
+  Code as found: query_parse adds a 'progress' entry to the caller's parse_kw (parse_kw.setdefault) -- not a k-mer
+  parameter, nothing of the property follows from it: counted, not judged (every other change of parse_kw is); a
+  one-line repair of that piece of API hygiene is proposed in repo_fixes/C14-parse_kw-alias.diff (not a C14 defect)."""
 import itertools
 import os
 import re
@@ -70,7 +117,13 @@ RULE = ('dist/query/tree/create: one command line = (kind of query source, kind 
         'signatures; database with .db/.h5 extensions), form = spelling / order of the options, GAMBIT_DB_PATH, -f '
         'json/archive, --strict, output to a pre-existing file or standard output, a real `python -m gambit` process; '
         'kspec: ktype/call = NumPy-scalar k and keyword call forms; api: one direct call of gambit.query.query_parse '
-        '(database loading path, params/kwargs, labels, parse_kw).  Same non-triviality rule; api: always')
+        '(database loading path, params/kwargs, labels, parse_kw).  Same non-triviality rule; api: always.  '
+        'seq: one script = 2-6 steps {cmd: dist|query|tree|create|kspec, c: a case of that kind; qslot/rslot/sslot/dbslot: the '
+        'source is read from one shared path that is rewritten in place; bad: an input cut in the middle / a missing genome in '
+        'a list} run in one fresh process; apiseq: one script = 2-3 databases + 2-6 query_parse calls {db, p/pas: shared '
+        'QueryParams object, pk: shared parse_kw dict, labels, files: list|tuple|missing|raises} over shared objects, optionally '
+        'in a second thread.  non-trivial: at least two steps, one of which is non-trivial by the rule of its kind (apiseq: at '
+        'least two calls)')
 TRUSTED = ['harness/c14.py: synthetic genomes, the pure-Python k-mer/Jaccard oracle used to recognise which parameters '
            'an output was computed with (tolerance 1.01e-4, candidates checked to be >= 1e-3 apart), construction of '
            'signature files (dump_signatures) and of small databases (SQLAlchemy models) from the harness\'s own k-mer sets',
@@ -81,7 +134,10 @@ TRUSTED = ['harness/c14.py: synthetic genomes, the pure-Python k-mer/Jaccard ora
            'gambit.sigs.load_signatures returns the parameters stored in the file; calc_file_signatures computes with '
            'the parameters it is given (C01/C12/C13 are about those)',
            'h5py for rewriting the kmerspec_k / kmerspec_prefix attributes of the variant signature files; subprocess + '
-           'PYTHONPATH (set by ./check) for the real-process stream']
+           'PYTHONPATH (set by ./check) for the real-process stream',
+           'sequence streams: os.fork / pipes / pickle (one process per script, forked from a template process that has '
+           'imported the implementation and never run it), hashlib.sha1 of the input files, vars() / repr of the '
+           'caller\'s objects, shutil for rewriting a shared path in place']
 ASSUMPTIONS = ['signature files and databases given on the command line are loadable (C12 covers foreign files); '
                '--prefix values are ASCII; k <= 32',
                'the repaired query command (repo_fixes/C14.diff: ClickException when the -s file\'s parameters differ '
@@ -99,8 +155,16 @@ ASSUMPTIONS = ['signature files and databases given on the command line are load
                '(find_kmers: -uint8(k) wraps to 250); replay repo_fixes/C14-uint8-k.replay.json, corpus case; the input '
                'class is generated and judged like every other',
                'a pre-existing output file that is emptied but holds no result after an error counts as "no result written" '
-               'for query (its -o file is opened lazily by click); for dist any file left behind counts as written']
-CORRESPONDENCES = ['kspec', 'dist', 'query', 'tree', 'create', 'api']
+               'for query (its -o file is opened lazily by click); for dist any file left behind counts as written',
+               'sequence streams: hidden state is looked for within one script (2-6 calls in one fresh process), not across '
+               'scripts; a step on an unreadable input (signature file / database cut in the middle, missing genome, a '
+               'sequence of files that raises, labels that do not fit) is judged by the predicate alone (error -> non-zero, '
+               'nothing written); "unmodified" covers the argument list, the env mapping, os.environ, the working directory, '
+               'the bytes of every input file, the default parameter set and the declared option defaults of every command, '
+               'and for query_parse the files / labels / QueryParams (vars) / parse_kw / observable fields of the databases / '
+               'earlier results; the OpenMP thread count set by -c and the \'progress\' entry query_parse adds to the caller\'s '
+               'parse_kw (code as found) are not sources of k-mer parameters and are not judged']
+CORRESPONDENCES = ['kspec', 'dist', 'query', 'tree', 'create', 'api', 'seq', 'apiseq']
 SHRINK = False
 BATCH = 400
 
@@ -323,6 +387,10 @@ def write_sigfile(path, side, pi, variant='plain', meta=None):
 	if variant == 'many':
 		ids = [f'{n}_{j}' for j, n in enumerate(ids)]
 	arrs = [np.array(sorted(x), dtype=dt) for x in sets]
+	if variant == 'extra':
+		# two signatures no genome of the database refers to, in front: the database's index array is not 0..n-1
+		arrs = [np.array(sorted(x), dtype=dt) for x in sigs_of('q', pi)] + arrs
+		ids = ['x1', 'x2'] + list(ids)
 	if variant == 'intids':
 		ids = np.arange(len(arrs))
 	elif variant == 'n0':
@@ -376,12 +444,117 @@ def db_dir(pi, variant='plain'):
 	key = pi if variant in (None, 'plain') else (pi, variant)
 	if key not in S['db']:
 		d = os.path.join(S['W'], f'db_{pi}' + ('' if key == pi else '_' + variant))
-		os.makedirs(d)
+		os.makedirs(d, exist_ok=True)
 		shutil.copy(os.path.join(S['db'][0], 'refs.gdb'), os.path.join(d, 'refs.db' if variant == 'altext' else 'refs.gdb'))
 		write_sigfile(os.path.join(d, 'refs.h5' if variant == 'altext' else 'refs.gs'), 'r', pi,
-		              'k_i4' if variant == 'k_i4' else 'plain', SignaturesMeta(id='c14', id_attr='key'))
+		              variant if variant in ('k_i4', 'extra') else 'plain', SignaturesMeta(id='c14', id_attr='key'))
 		S['db'][key] = d
 	return S['db'][key]
+
+
+# ---- shared objects of the sequence streams: files that are REWRITTEN IN PLACE, inputs that fail part-way -------------
+def _replace_file(src, dst):
+	"""dst becomes a copy of src under a new inode (a handle a former command left open on the old file stays valid)"""
+	import gc
+	import shutil
+	gc.collect()
+	if os.path.exists(dst):
+		os.remove(dst)
+	shutil.copyfile(src, dst)
+
+
+def slot_sigfile(side, slot, pi, variant):
+	"""ONE path per (side, slot) whose content follows the step that uses it: same path, other parameters / container"""
+	src = sigfile(side, pi, variant)
+	if src is None:
+		return None
+	key = ('sig', side, slot)
+	path = os.path.join(S['W'], f'slot_{side}{slot}.gs')
+	if S['slots'].get(key) != (pi, variant or 'plain'):
+		if key in S['slots']:
+			S['rewrites'] = S.get('rewrites', 0) + 1
+		_replace_file(src, path)
+		S['slots'][key] = (pi, variant or 'plain')
+	return path
+
+
+def slot_db(slot, pi, variant):
+	"""ONE database directory per slot whose files follow the step that uses it"""
+	src = db_dir(pi, variant)
+	key = ('db', slot)
+	d = os.path.join(S['W'], f'slot_db{slot}')
+	if S['slots'].get(key) != (pi, variant or 'plain'):
+		import gc
+		import shutil
+		gc.collect()
+		if key in S['slots']:
+			S['rewrites'] = S.get('rewrites', 0) + 1
+		shutil.rmtree(d, ignore_errors=True)
+		os.makedirs(d)
+		for fn in sorted(os.listdir(src)):
+			shutil.copyfile(os.path.join(src, fn), os.path.join(d, fn))
+		S['slots'][key] = (pi, variant or 'plain')
+	return d
+
+
+def src_sigfile(c, side, pkey, vkey, slotkey):
+	"""the pre-computed signature file a case names: the fixed file of its parameters / variant, or a shared slot"""
+	if c.get(slotkey) is None:
+		return sigfile(side, c[pkey], c.get(vkey))
+	return slot_sigfile(side, c[slotkey], c[pkey], c.get(vkey))
+
+
+def db_path(c, default_variant='plain'):
+	if c.get('dbslot') is not None and c['db'] != 'testdb':
+		return slot_db(c['dbslot'], c['db'], c.get('dbv') or default_variant)
+	return db_dir(c['db'], c.get('dbv') or default_variant)
+
+
+def truncated(path):
+	"""a copy of a signature file cut in the middle (it cannot be loaded: the command fails after what came before it)"""
+	if path is None:
+		return None
+	key = ('trunc', path)
+	if key not in S['bad']:
+		data = open(path, 'rb').read()
+		out = os.path.join(S['W'], f'trunc_{len(S["bad"])}.gs')
+		with open(out, 'wb') as f:
+			f.write(data[:max(64, len(data) // 2)])
+		S['bad'][key] = out
+	return S['bad'][key]
+
+
+def truncated_db(path):
+	"""a copy of a database directory whose signature file is cut in the middle"""
+	import shutil
+	key = ('truncdb', path)
+	if key not in S['bad']:
+		d = os.path.join(S['W'], f'truncdb_{len(S["bad"])}')
+		os.makedirs(d)
+		for fn in sorted(os.listdir(path)):
+			src = os.path.join(path, fn)
+			if fn.endswith(('.gs', '.h5')):
+				data = open(src, 'rb').read()
+				with open(os.path.join(d, fn), 'wb') as f:
+					f.write(data[:max(64, len(data) // 2)])
+			else:
+				shutil.copyfile(src, os.path.join(d, fn))
+		S['bad'][key] = d
+	return S['bad'][key]
+
+
+def missing_list(side):
+	"""a list file that names a genome file that does not exist BETWEEN the real ones: signatures are being computed
+	when the command fails"""
+	key = ('missing', side)
+	if key not in S['bad']:
+		paths = list(S['files'][side])
+		paths.insert(1, os.path.join(S['W'], f'no_such_genome_{side}.fasta'))
+		out = os.path.join(S['W'], f'{side}_list_missing.txt')
+		with open(out, 'w') as f:
+			f.write('\n'.join(paths) + '\n')
+		S['bad'][key] = out
+	return S['bad'][key]
 
 
 # ---- fixtures -----------------------------------------------------------------------------------
@@ -423,6 +596,9 @@ def setup(ctx):
 
 	S['sigfile'] = {}
 	S['db'] = {}
+	S['slots'] = {}
+	S['bad'] = {}
+	S['watch'] = None
 	for pi in range(NFIXED):
 		for side in 'qr':
 			sigfile(side, pi)
@@ -445,6 +621,7 @@ def setup(ctx):
 		S['db'][pi] = d
 	S['testdb'] = os.path.join(ctx.repo, 'tests', 'data', 'testdb_210818')
 	ctx.rule(RULE)
+	S['template'] = start_template_process()
 
 
 def outpath():
@@ -476,9 +653,21 @@ def invoke(args, env=None, proc=False):
 			return r.returncode, errclass_of_text(r.stderr), r.stderr
 		last = ([l for l in r.stderr.strip().split('\n') if l.strip()] or ['?'])[-1]
 		return r.returncode, 'exception:' + last.split(':')[0].strip(), r.stderr[-600:]
+	watch = S.get('watch')
+	if watch is not None:
+		before = (list(args), None if env is None else dict(env), snapshot_inputs(args, env))
 	# a one-CPU machine: the worker pools of calc_file_signatures (C13's subject) get one process instead of 16
 	with mock.patch('os.cpu_count', return_value=1):
 		r = CliRunner().invoke(gambit.cli.cli, args, env=env)
+	if watch is not None:
+		after = (list(args), None if env is None else dict(env), snapshot_inputs(before[0], before[1]))
+		for name, b, a in zip(('the argument list', 'the environment mapping', 'input files'), before, after):
+			if a != b:
+				if isinstance(b, dict) and isinstance(a, dict):
+					diff = {k: [b.get(k), a.get(k)] for k in sorted(set(a) | set(b)) if a.get(k) != b.get(k)}
+				else:
+					diff = [b, a]
+				watch.append(f'{name} handed to the command were changed by it: {str(diff)[:400]}')
 	text = r.output or ''
 	try:
 		S['stdout'] = r.stdout
@@ -491,6 +680,57 @@ def invoke(args, env=None, proc=False):
 	return r.exit_code, errclass_of_text(text), text
 
 
+# ---- what a command must leave as it found it -----------------------------------------------------
+def snapshot_inputs(args, env):
+	"""sha1 of every input file a command line names (genome files, list files and what they list, signature files,
+	database directories) -- not of its output file"""
+	import hashlib
+	paths = set(S['files']['q'] + S['files']['r'] + [S['files']['ql'], S['files']['rl']])
+	toks = [str(a) for a in args] + [str(v) for v in (env or {}).values()]
+	for i, t in enumerate(toks):
+		if i > 0 and toks[i - 1] in ('-o', '--output') or t.startswith('--output='):
+			continue
+		for pre in ('--db=', '--sigfile='):
+			if t.startswith(pre):
+				t = t[len(pre):]
+		if os.path.isdir(t):
+			paths.update(os.path.join(t, fn) for fn in os.listdir(t))
+		elif os.path.isfile(t):
+			paths.add(t)
+			if t.endswith('.txt'):
+				paths.update(l.strip() for l in open(t) if l.strip())
+	out = {}
+	for q in sorted(paths):
+		if os.path.isfile(q):
+			with open(q, 'rb') as f:
+				out[q.replace(S['W'] + os.sep, '')] = hashlib.sha1(f.read()).hexdigest()
+	return out
+
+
+def process_state():
+	"""the long-lived objects the commands read their defaults from: the default parameter set as every command module
+	sees it, the declared defaults / environment variables of every option, the environment, the working directory"""
+	import gambit.kmers
+	import gambit.cli
+	import gambit.cli.common as cm
+	import gambit.cli.dist as cd
+	import gambit.cli.signatures as cs
+	import gambit.cli.query as cq
+	import gambit.cli.tree as ct
+	out = {}
+	for mod in (gambit.kmers, cm, cd, cs):
+		ks = mod.DEFAULT_KMERSPEC
+		out[mod.__name__ + '.DEFAULT_KMERSPEC'] = [repr(ks.k), repr(ks.prefix), ks.prefix_str, repr(ks.prefix_len), repr(ks.total_len),
+		                                           repr(ks.nkmers), str(ks.index_dtype)]
+	for cmd in (gambit.cli.cli, cd.dist_cmd, cq.query_cmd, ct.tree_cmd, cs.create):
+		for prm in cmd.params:
+			if prm.name != 'output':
+				out[f'{cmd.name}.{prm.name}'] = [repr(prm.default), repr(getattr(prm, 'envvar', None)), repr(getattr(prm, 'is_flag', None))]
+	out['cwd'] = os.getcwd()
+	out['environ'] = dict(os.environ)
+	return out
+
+
 # ---- the command line in its other forms ---------------------------------------------------------
 SENTINEL = 'c14-sentinel,this,file,was,here,before\n'
 
@@ -499,7 +739,9 @@ def root_tokens(c, default_variant='plain'):
 	"""the root option naming the database -> (tokens, environment)"""
 	if c.get('db') is None:
 		return [], None
-	path = db_dir(c['db'], c.get('dbv') or default_variant)
+	path = db_path(c, default_variant)
+	if c.get('bad') == 'db-trunc':
+		path = truncated_db(path)
 	how = fopt(c, 'db_opt', '-d')
 	if how == 'env':
 		return [], {'GAMBIT_DB_PATH': path}
@@ -630,6 +872,32 @@ def judge(pend, case, obs, unidentified, model_run, wf, spec, nontrivial, expect
 	pend.append((case, obs, unidentified, model_run, wf, spec, nontrivial, expect_refusal, domain))
 
 
+def verdict(kind, case, obs, unidentified, model_run, wf, spec, expect_refusal, domain, ok):
+	"""the judgement of ONE observed run (shared by the single-call kinds and by every step of a sequence):
+	-> None | ('violation', what, values) | ('broke', obligation, detail).  ok: the answer of the extracted run_ok"""
+	so, sm = summarise(obs), summarise(model_run)
+	must_refuse = (bool(wf) and spec is None) if expect_refusal is None else expect_refusal
+	vals = dict(impl=dict(so, cmd=obs.get('cmd')), model=sm, spec=dict(wf=wf, use=None if spec is None else f'{PARAMS[spec][0]}/{PARAMS[spec][1]}'))
+	if unidentified and obs['exit'] == 0 and spec is not None and bool(wf):
+		# every source agrees on one parameter set: the result is determined (the distances of the harness's own
+		# k-mer sets under that set on both sides) and the written numbers are something else
+		return ('violation', f'exit status 0, but the written numbers are not the distances with {PARAMS[spec][0]}/{PARAMS[spec][1]} '
+		        f'on both sides (nor with any other candidate pair): {unidentified}', vals)
+	if unidentified and obs['exit'] == 0:
+		return ('broke', f'{kind}: output not recognised',
+		        f'case {case}: the written numbers match no candidate parameter pair; {unidentified}')
+	if ok != 1:
+		return ('violation', 'status / output / compared parameters violate the property predicate run_ok '
+		        '(parameters of the two sides differ, or an error left a result behind, or a failure without error)', vals)
+	if must_refuse and obs['exit'] == 0:
+		return ('violation', 'differing parameter sources were accepted (exit status 0, result written)', vals)
+	if must_refuse and so['err'] not in MISMATCH and sm['err'] in MISMATCH:
+		return ('violation', 'the mismatch of k-mer parameters is not what the error reports', vals)
+	if domain and so != sm:
+		return ('broke', f'{kind}: model/implementation correspondence', f'case {case}: impl {so} model {sm}')
+	return None
+
+
 def judge_batch(ctx, kind, pend):
 	"""obs: dict(exit, err, steps) observed on the implementation; the property predicate is the extracted run_ok.
 	domain=False: the input is outside what the model of the commands describes -- it is judged by the predicate and
@@ -639,77 +907,78 @@ def judge_batch(ctx, kind, pend):
 	oks = ctx.model([(1408, w_obs(p[1]['exit'], p[1]['steps'])) for p in pend])
 	for (case, obs, unidentified, model_run, wf, spec, nontrivial, expect_refusal, domain), ok in zip(pend, oks):
 		ctx.case(case, nontrivial=nontrivial)
-		so, sm = summarise(obs), summarise(model_run)
+		so = summarise(obs)
 		if obs['exit'] == 0 and (so['compare'] or so['calc']):
 			ctx.count(kind + ':output-recognised')
-		must_refuse = (bool(wf) and spec is None) if expect_refusal is None else expect_refusal
-		vals = dict(impl=dict(so, cmd=obs.get('cmd')), model=sm, spec=dict(wf=wf, use=None if spec is None else f'{PARAMS[spec][0]}/{PARAMS[spec][1]}'))
-		if unidentified and obs['exit'] == 0 and spec is not None and bool(wf):
-			# every source agrees on one parameter set: the result is determined (the distances of the harness's own
-			# k-mer sets under that set on both sides) and the written numbers are something else
-			ctx.violation(kind, case, f'exit status 0, but the written numbers are not the distances with {PARAMS[spec][0]}/{PARAMS[spec][1]} '
-			              f'on both sides (nor with any other candidate pair): {unidentified}', **vals)
-		elif unidentified and obs['exit'] == 0:
-			ctx.broke(f'{kind}: output not recognised',
-			          f'case {case}: the written numbers match no candidate parameter pair; {unidentified}')
-		elif ok != 1:
-			ctx.violation(kind, case, 'status / output / compared parameters violate the property predicate run_ok '
-			              '(parameters of the two sides differ, or an error left a result behind, or a failure without error)', **vals)
-		elif must_refuse and obs['exit'] == 0:
-			ctx.violation(kind, case, 'differing parameter sources were accepted (exit status 0, result written)', **vals)
-		elif must_refuse and so['err'] not in MISMATCH and sm['err'] in MISMATCH:
-			ctx.violation(kind, case, 'the mismatch of k-mer parameters is not what the error reports', **vals)
-		elif domain and so != sm:
-			ctx.broke(f'{kind}: model/implementation correspondence', f'case {case}: impl {so} model {sm}')
+		v = verdict(kind, case, obs, unidentified, model_run, wf, spec, expect_refusal, domain, ok)
+		if v is not None and v[0] == 'violation':
+			ctx.violation(kind, case, v[1], **v[2])
+		elif v is not None:
+			ctx.broke(v[1], v[2])
 
 
 # ---- kind: kspec --------------------------------------------------------------------------------
-def run_kspec(ctx, cases):
+def eval_kspec(c, a):
+	"""one call of kspec_from_params against the model's answer a -> (impl, nontrivial, finding); finding as verdict()'s"""
 	import click
 	from gambit.cli.common import kspec_from_params
-	ans = ctx.model([(1401, [w_opt_k(c['k']), w_opt_p(c['prefix']), bool(c['default'])]) for c in cases])
-	for c, a in zip(cases, ans):
-		try:
-			k = c['k']
-			if c.get('ktype') and k is not None:
-				import numpy as np
-				k = getattr(np, c['ktype'])(k)   # a NumPy scalar, as read from an HDF5 attribute or an array
-			call = c.get('call', 'pos')
-			if call == 'kw':
-				r = kspec_from_params(k=k, prefix=c['prefix'], default=c['default'])
-			elif call == 'kw-swapped':
-				r = kspec_from_params(default=c['default'], prefix=c['prefix'], k=k)
-			elif call == 'short' and not c['default']:
-				r = kspec_from_params(k, c['prefix'])
-			else:
-				r = kspec_from_params(k, c['prefix'], c['default'])
-			impl = ['ok', None if r is None else [int(r.k), r.prefix.decode('ascii')]]
-			if r is not None and c['k'] is not None and c['prefix'] is not None:
-				# the returned object must BE the parameter set for every later comparison: equal to the plain one
-				from gambit.kmers import KmerSpec
-				if not (r == KmerSpec(int(r.k), r.prefix) and hash(r) == hash(KmerSpec(int(r.k), r.prefix))):
-					impl = ['ok', ['unequal-to-its-own-parameters', int(r.k), r.prefix.decode('ascii')]]
-		except click.ClickException as e:
-			impl = ['err', errclass_of_text('Error: ' + e.format_message())]
-		except Exception as e:
-			impl = ['exception', type(e).__name__]
-		if a[0] == 0:
-			model = ['ok', None if not a[1] else [a[1][0][0], bytes(a[1][0][1]).decode('ascii')]]
+	try:
+		k = c['k']
+		if c.get('ktype') and k is not None:
+			import numpy as np
+			k = getattr(np, c['ktype'])(k)   # a NumPy scalar, as read from an HDF5 attribute or an array
+		call = c.get('call', 'pos')
+		if call == 'kw':
+			r = kspec_from_params(k=k, prefix=c['prefix'], default=c['default'])
+		elif call == 'kw-swapped':
+			r = kspec_from_params(default=c['default'], prefix=c['prefix'], k=k)
+		elif call == 'short' and not c['default']:
+			r = kspec_from_params(k, c['prefix'])
 		else:
-			model = ['err', errclass_of_code(a[1])]
-		nt = (c['k'] is None) != (c['prefix'] is None) or c['k'] in (4, 5) or (c['prefix'] is not None and len(c['prefix']) in (1, 2))
+			r = kspec_from_params(k, c['prefix'], c['default'])
+		impl = ['ok', None if r is None else [int(r.k), r.prefix.decode('ascii')]]
+		if r is not None and c['k'] is not None and c['prefix'] is not None:
+			# the returned object must BE the parameter set for every later comparison: equal to the plain one
+			from gambit.kmers import KmerSpec
+			if not (r == KmerSpec(int(r.k), r.prefix) and hash(r) == hash(KmerSpec(int(r.k), r.prefix))):
+				impl = ['ok', ['unequal-to-its-own-parameters', int(r.k), r.prefix.decode('ascii')]]
+	except click.ClickException as e:
+		impl = ['err', errclass_of_text('Error: ' + e.format_message())]
+	except Exception as e:
+		impl = ['exception', type(e).__name__]
+	if a[0] == 0:
+		model = ['ok', None if not a[1] else [a[1][0][0], bytes(a[1][0][1]).decode('ascii')]]
+	else:
+		model = ['err', errclass_of_code(a[1])]
+	nt = (c['k'] is None) != (c['prefix'] is None) or c['k'] in (4, 5) or (c['prefix'] is not None and len(c['prefix']) in (1, 2))
+	finding = None
+	if impl != model:
+		# what the property states: -k and --prefix only together; the accepted values ARE the parameter set.
+		# The minimum k / prefix length and the nucleotide check are the code's own choices: correspondence only.
+		alone = (c['k'] is None) != (c['prefix'] is None)
+		wrong_value = impl[0] == 'ok' and impl[1] is not None and c['k'] is not None and c['prefix'] is not None and \
+			impl[1] != [c['k'], c['prefix'].upper()]
+		if (alone and impl[0] == 'ok') or wrong_value:
+			finding = ('violation', 'kspec_from_params accepts one of -k/--prefix alone or returns other parameters than given',
+			           dict(impl=impl, model=model, spec=model))
+		else:
+			finding = ('broke', 'kspec: model/implementation correspondence', f'case {c}: impl {impl} model {model}')
+	return impl, nt, finding
+
+
+def kspec_wire(c):
+	return [w_opt_k(c['k']), w_opt_p(c['prefix']), bool(c['default'])]
+
+
+def run_kspec(ctx, cases):
+	ans = ctx.model([(1401, kspec_wire(c)) for c in cases])
+	for c, a in zip(cases, ans):
+		impl, nt, finding = eval_kspec(c, a)
 		ctx.case(c, nontrivial=nt)
-		if impl != model:
-			# what the property states: -k and --prefix only together; the accepted values ARE the parameter set.
-			# The minimum k / prefix length and the nucleotide check are the code's own choices: correspondence only.
-			alone = (c['k'] is None) != (c['prefix'] is None)
-			wrong_value = impl[0] == 'ok' and impl[1] is not None and c['k'] is not None and c['prefix'] is not None and \
-				impl[1] != [c['k'], c['prefix'].upper()]
-			if (alone and impl[0] == 'ok') or wrong_value:
-				ctx.violation('kspec', c, 'kspec_from_params accepts one of -k/--prefix alone or returns other parameters than given',
-				              impl=impl, model=model, spec=model)
-			else:
-				ctx.broke('kspec: model/implementation correspondence', f'case {c}: impl {impl} model {model}')
+		if finding is not None and finding[0] == 'violation':
+			ctx.violation('kspec', c, finding[1], **finding[2])
+		elif finding is not None:
+			ctx.broke(finding[1], finding[2])
 
 
 # ---- kind: dist ---------------------------------------------------------------------------------
@@ -717,20 +986,23 @@ def dist_args(c):
 	"""c: resolved case -> (args, environment, output path); None when a signature file could not be made"""
 	root, env = root_tokens(c)
 	groups, out = common_groups(c, 'dist')
+	bad = c.get('bad')
 	for src in c['q']:
 		if src == 'q':
 			groups.append([t for p in S['files']['q'] for t in ('-q', p)])
 		elif src == 'ql':
-			groups.append(['--ql', S['files']['ql']])
+			groups.append(['--ql', missing_list('q') if bad == 'ql-missing' else S['files']['ql']])
 		else:
-			groups.append(['--qs', sigfile('q', c['qp'], c.get('qv'))])
+			path = src_sigfile(c, 'q', 'qp', 'qv', 'qslot')
+			groups.append(['--qs', truncated(path) if bad == 'qs-trunc' else path])
 	for src in c['r']:
 		if src == 'r':
 			groups.append([t for p in S['files']['r'] for t in ('-r', p)])
 		elif src == 'rl':
-			groups.append(['--rl', S['files']['rl']])
+			groups.append(['--rl', missing_list('r') if bad == 'rl-missing' else S['files']['rl']])
 		elif src == 'rs':
-			groups.append(['--rs', sigfile('r', c['rp'], c.get('rv'))])
+			path = src_sigfile(c, 'r', 'rp', 'rv', 'rslot')
+			groups.append(['--rs', truncated(path) if bad == 'rs-trunc' else path])
 		elif src == 'db':
 			groups.append([fopt(c, 'usedb_opt', '--use-db')])
 		else:
@@ -791,9 +1063,25 @@ def out_of_model(c):
 	"""inputs the model of the commands does not describe (judged by the property predicate and the declarative
 	specification only): signature files without signatures; pre-computed signatures with k <= 4, whose 8-bit k-mer
 	indices the distance kernel refuses with a ValueError when a comparison is attempted (C02's subject)"""
-	if 'n0' in (c.get('qv'), c.get('rv'), c.get('sv')):
+	if 'n0' in (c.get('qv'), c.get('rv'), c.get('sv')) or c.get('bad'):
 		return True
 	return any(isinstance(c.get(f), int) and PARAMS[c[f]][0] <= 4 for f in ('qp', 'rp', 'db', 'sp'))
+
+
+def eval_dist(c0, c, m, sp):
+	"""run one dist command line -> dict(pipeline=...) when a source could not be made, else what judge() takes"""
+	args, env, out = dist_args(c)
+	if args is None:
+		return dict(pipeline=f'case {c0}: gambit signatures create did not produce the signature file: {S.get("create_failed")}')
+	ex, err, text = invoke(args, env=env, proc=bool(fopt(c, 'proc')))
+	mr = dec_run(m)
+	want = ([tuple(st[1:]) for st in mr['steps'] if st[0] == 'compare'] or [None])[0]
+	wt = written_text(c, out)
+	obs, unid = observe_dist(c, ex, err, wt, want)
+	nsrc = ('qs' in c['q']) + ('rs' in c['r'] or 'db' in c['r']) + (c.get('k') is not None or c.get('prefix') is not None)
+	outcome = 'refused-mismatch' if obs['err'] in MISMATCH else 'refused-usage' if ex else 'ran'
+	return dict(obs=obs, unid=unid, mr=mr, wf=bool(sp[0]), spec=ks_index(sp[1][0]) if sp[1] else None, nt=nsrc >= 2,
+	            expect_refusal=False if c.get('bad') else None, domain=not out_of_model(c), outcome=outcome, result=wt)
 
 
 def run_dist(ctx, cases):
@@ -802,21 +1090,15 @@ def run_dist(ctx, cases):
 	spec = ctx.model([(1406, dist_wire(c)) for c in rcs])
 	pend = []
 	for c0, c, m, sp in zip(cases, rcs, model, spec):
-		args, env, out = dist_args(c)
-		if args is None:
+		e = eval_dist(c0, c, m, sp)
+		if 'pipeline' in e:
 			ctx.case(c0, nontrivial=False)
-			ctx.broke('dist: pipeline', f'case {c0}: gambit signatures create did not produce the signature file: {S.get("create_failed")}')
+			ctx.broke('dist: pipeline', e['pipeline'])
 			continue
-		ex, err, text = invoke(args, env=env, proc=bool(fopt(c, 'proc')))
-		mr = dec_run(m)
-		want = ([tuple(st[1:]) for st in mr['steps'] if st[0] == 'compare'] or [None])[0]
-		obs, unid = observe_dist(c, ex, err, written_text(c, out), want)
-		nsrc = ('qs' in c['q']) + ('rs' in c['r'] or 'db' in c['r']) + (c.get('k') is not None or c.get('prefix') is not None)
-		judge(pend, c0, obs, unid, mr, bool(sp[0]), ks_index(sp[1][0]) if sp[1] else None, nsrc >= 2, domain=not out_of_model(c))
-		outcome = 'refused-mismatch' if obs['err'] in MISMATCH else 'refused-usage' if ex else 'ran'
-		ctx.count('dist:' + outcome)
+		judge(pend, c0, e['obs'], e['unid'], e['mr'], e['wf'], e['spec'], e['nt'], domain=e['domain'])
+		ctx.count('dist:' + e['outcome'])
 		if c.get('st'):
-			ctx.count(f'dist[{c["st"]}]:' + (outcome if ex or not unid else 'ran-unrecognised'))
+			ctx.count(f'dist[{c["st"]}]:' + (e['outcome'] if e['obs']['exit'] or not e['unid'] else 'ran-unrecognised'))
 	judge_batch(ctx, 'dist', pend)
 
 
@@ -828,11 +1110,13 @@ def query_args(c):
 		if src == 'files':
 			groups.append(list(S['files']['q']))
 		elif src == 'list':
-			groups.append(['-l', S['files']['ql']])
+			groups.append(['-l', missing_list('q') if c.get('bad') == 'l-missing' else S['files']['ql']])
 		else:
-			path = sigfile('q', c['sp'], c.get('sv'))
+			path = src_sigfile(c, 'q', 'sp', 'sv', 'sslot')
 			if path is None:
 				return None, env, out
+			if c.get('bad') == 's-trunc':
+				path = truncated(path)
 			how = fopt(c, 'sig_opt', '-s')
 			groups.append(['--sigfile=' + path] if how == '--sigfile=' else [how, path])
 	if fopt(c, 'outfmt') is not None:
@@ -898,25 +1182,35 @@ def observe_query(c, exit_status, err, text):
 	return dict(exit=exit_status, err=err, steps=steps, cmd=S.get('last_cmd')), unid
 
 
+def eval_query(c0, c, m, sp):
+	args, env, out = query_args(c)
+	if args is None:
+		return dict(pipeline=f'case {c0}: gambit signatures create did not produce the signature file: {S.get("create_failed")}')
+	ex, err, text = invoke(args, env=env, proc=bool(fopt(c, 'proc')))
+	wt = written_text(c, out)
+	obs, unid = observe_query(c, ex, err, wt)
+	nt = 'sig' in c['src'] and c.get('db') is not None
+	outcome = 'refused-mismatch' if obs['err'] in MISMATCH else 'refused-usage' if ex else 'ran'
+	vec = closest_distances(wt, fopt(c, 'outfmt')) if wt is not None and wt.strip() else None
+	return dict(obs=obs, unid=unid, mr=dec_run(m), wf=bool(sp[0]), spec=ks_index(sp[1][0]) if sp[1] else None, nt=nt,
+	            expect_refusal=False if c.get('bad') else None, domain=not out_of_model(c), outcome=outcome, result=vec)
+
+
 def run_query(ctx, cases):
 	rcs = [resolved(c) for c in cases]
 	model = ctx.model([(1403, [True] + query_wire(c)) for c in rcs])
 	spec = ctx.model([(1407, query_wire(c)) for c in rcs])
 	pend = []
 	for c0, c, m, sp in zip(cases, rcs, model, spec):
-		args, env, out = query_args(c)
-		if args is None:
+		e = eval_query(c0, c, m, sp)
+		if 'pipeline' in e:
 			ctx.case(c0, nontrivial=False)
-			ctx.broke('query: pipeline', f'case {c0}: gambit signatures create did not produce the signature file: {S.get("create_failed")}')
+			ctx.broke('query: pipeline', e['pipeline'])
 			continue
-		ex, err, text = invoke(args, env=env, proc=bool(fopt(c, 'proc')))
-		obs, unid = observe_query(c, ex, err, written_text(c, out))
-		nt = 'sig' in c['src'] and c.get('db') is not None
-		judge(pend, c0, obs, unid, dec_run(m), bool(sp[0]), ks_index(sp[1][0]) if sp[1] else None, nt, domain=not out_of_model(c))
-		outcome = 'refused-mismatch' if obs['err'] in MISMATCH else 'refused-usage' if ex else 'ran'
-		ctx.count('query:' + outcome)
+		judge(pend, c0, e['obs'], e['unid'], e['mr'], e['wf'], e['spec'], e['nt'], domain=e['domain'])
+		ctx.count('query:' + e['outcome'])
 		if c.get('st'):
-			ctx.count(f'query[{c["st"]}]:' + (outcome if ex or not unid else 'ran-unrecognised'))
+			ctx.count(f'query[{c["st"]}]:' + (e['outcome'] if e['obs']['exit'] or not e['unid'] else 'ran-unrecognised'))
 	judge_batch(ctx, 'query', pend)
 
 
@@ -929,7 +1223,7 @@ def tree_args(c):
 		elif src == 'list':
 			args += ['-l', S['files']['ql']]
 		else:
-			args += ['-s', S['sigfile'][('q', c['sp'])]]
+			args += ['-s', src_sigfile(c, 'q', 'sp', 'sv', 'sslot')]
 	if c.get('k') is not None:
 		args += ['-k', c['k']]
 	if c.get('prefix') is not None:
@@ -937,39 +1231,49 @@ def tree_args(c):
 	return args
 
 
+def tree_wire(c):
+	return ['files' in c['src'], 'list' in c['src'], w_ksopt(c['sp'] if 'sig' in c['src'] else None),
+	        w_opt_k(c.get('k')), w_opt_p(c.get('prefix'))]
+
+
+def eval_tree(c, m):
+	ex, err, text = invoke(tree_args(c))
+	steps, unid = [], None
+	mm = re.search(r'\(q1:([0-9.eE+-]+),q2:([0-9.eE+-]+)\)', text) or re.search(r'\(q2:([0-9.eE+-]+),q1:([0-9.eE+-]+)\)', text)
+	mr = dec_run(m)
+	if ex == 0:
+		sfix = c['sp'] if 'sig' in c['src'] else None
+		found = []
+		if mm:
+			length = float(mm.group(1))
+			for a in ([sfix] if sfix is not None else candidates(c)):
+				d = jaccard(*sigs_of('q', a))
+				# which share of the distance a leaf branch carries is C17's business
+				if abs(length - d) <= TOL or abs(2 * length - d) <= TOL:
+					found.append(a)
+		want = [s[1] for s in mr['steps'] if s[0] == 'compare']
+		if found:
+			a = want[0] if want and want[0] in found else found[0]
+			if sfix is None:
+				steps.append(('calc', 'q', a))
+			steps.append(('compare', a, a))
+		else:
+			unid = f'newick {text[-120:]!r}'
+		steps.append(('write',))
+	obs = dict(exit=ex, err=err, steps=steps, cmd=S.get('last_cmd'))
+	ignored = 'sig' in c['src'] and (c.get('k') is not None or c.get('prefix') is not None)
+	return dict(obs=obs, unid=unid, mr=mr, wf=False, spec=None, nt=c.get('k') is not None or c.get('prefix') is not None,
+	            expect_refusal=False, domain=True, ignored=ignored, result=[float(mm.group(1)), float(mm.group(2))] if mm and ex == 0 else None)
+
+
 def run_tree(ctx, cases):
-	model = ctx.model([(1404, ['files' in c['src'], 'list' in c['src'], w_ksopt(c['sp'] if 'sig' in c['src'] else None),
-	                           w_opt_k(c.get('k')), w_opt_p(c.get('prefix'))]) for c in cases])
+	model = ctx.model([(1404, tree_wire(c)) for c in cases])
 	pend = []
 	for c, m in zip(cases, model):
-		ex, err, text = invoke(tree_args(c))
-		steps, unid = [], None
-		mm = re.search(r'\(q1:([0-9.eE+-]+),q2:([0-9.eE+-]+)\)', text) or re.search(r'\(q2:([0-9.eE+-]+),q1:([0-9.eE+-]+)\)', text)
-		if ex == 0:
-			sfix = c['sp'] if 'sig' in c['src'] else None
-			found = []
-			if mm:
-				length = float(mm.group(1))
-				for a in ([sfix] if sfix is not None else candidates(c)):
-					d = jaccard(*sigs_of('q', a))
-					# which share of the distance a leaf branch carries is C17's business
-					if abs(length - d) <= TOL or abs(2 * length - d) <= TOL:
-						found.append(a)
-			mr = dec_run(m)
-			want = [s[1] for s in mr['steps'] if s[0] == 'compare']
-			if found:
-				a = want[0] if want and want[0] in found else found[0]
-				if sfix is None:
-					steps.append(('calc', 'q', a))
-				steps.append(('compare', a, a))
-			else:
-				unid = f'newick {text[-120:]!r}'
-			steps.append(('write',))
-		obs = dict(exit=ex, err=err, steps=steps, cmd=S.get('last_cmd'))
-		ignored = 'sig' in c['src'] and (c.get('k') is not None or c.get('prefix') is not None)
-		if ignored:
+		e = eval_tree(c, m)
+		if e['ignored']:
 			ctx.count('tree:options-ignored-with-sigfile')
-		judge(pend, c, obs, unid, dec_run(m), False, None, c.get('k') is not None or c.get('prefix') is not None, expect_refusal=False)
+		judge(pend, c, e['obs'], e['unid'], e['mr'], False, None, e['nt'], expect_refusal=False)
 	judge_batch(ctx, 'tree', pend)
 
 
@@ -977,7 +1281,7 @@ def run_tree(ctx, cases):
 def create_args(c, out):
 	args = []
 	if c.get('db') is not None:
-		args += ['-d', S['db'][c['db']]]
+		args += ['-d', db_path(c)]
 	args += ['signatures', 'create', '-o', out, '--no-progress', '-c', 1]
 	for src in c['src']:
 		if src == 'files':
@@ -993,54 +1297,65 @@ def create_args(c, out):
 	return args
 
 
-def run_create(ctx, cases):
+def create_wire(c):
+	return ['files' in c['src'], 'list' in c['src'], w_opt_k(c.get('k')), w_opt_p(c.get('prefix')),
+	        bool(c.get('db_params')), w_ksopt(c.get('db'))]
+
+
+def eval_create(c, m):
+	"""-> what judge() takes, or with 'direct' = ('violation', what, values): the file itself contradicts the property"""
 	import h5py
-	model = ctx.model([(1405, ['files' in c['src'], 'list' in c['src'], w_opt_k(c.get('k')), w_opt_p(c.get('prefix')),
-	                           bool(c.get('db_params')), w_ksopt(c.get('db'))]) for c in cases])
+	out = outpath()
+	ex, err, text = invoke(create_args(c, out))
+	steps, unid, result = [], None, None
+	if os.path.exists(out):
+		try:
+			with h5py.File(out, 'r') as f:
+				k = int(f.attrs['kmerspec_k'])
+				p = f.attrs['kmerspec_prefix']
+				p = p.decode('ascii') if isinstance(p, bytes) else str(p)
+				values, bounds = f['values'][:], f['bounds'][:]
+			got = [set(int(x) for x in values[bounds[i]:bounds[i + 1]]) for i in range(len(bounds) - 1)]
+			result = [k, p, [len(g) for g in got]]
+			if 1 <= k <= 32 and p and all(ch in 'ACGT' for ch in p) and got == sigs_of('q', param_index(k, p)):
+				steps.append(('calc', 'q', param_index(k, p)))
+			else:
+				unid = f'file records parameters {(k, p)} but its signatures are not those of the genomes under them'
+		except Exception as e:
+			unid = f'unreadable output: {e!r}'
+		steps.append(('write',))
+		os.remove(out)
+	obs = dict(exit=ex, err=err, steps=steps, cmd=S.get('last_cmd'))
+	mr = dec_run(m)
+	nt = bool(c.get('db_params')) or c.get('k') is not None or c.get('prefix') is not None
+	so, sm = summarise(obs), summarise(mr)
+	e = dict(obs=obs, unid=None, mr=mr, wf=False, spec=None, nt=nt, expect_refusal=False, domain=True, result=result)
+	if unid and ex == 0:
+		# the recorded parameters are not the ones the signatures were computed with: a later comparison
+		# against this file would be a silent mismatch
+		e['nt'] = True
+		e['direct'] = ('violation', 'the signature file does not contain the signatures of its recorded parameters: ' + unid,
+		               dict(impl=dict(so, cmd=obs.get('cmd')), model=sm, spec=sm))
+	elif ex == 0 and sm['exit'] == 0 and so['calc'] != sm['calc']:
+		e['direct'] = ('violation', 'signatures were computed with other parameters than the ones asked for '
+		               '(--db-params: the database\'s; -k/--prefix; else the default)', dict(impl=dict(so, cmd=obs.get('cmd')), model=sm, spec=sm))
+	elif ex == 0 and sm['err'] == 'dbparams-excl' and c.get('db') is not None and \
+			(c['k'], c['prefix'].upper()) != PARAMS[c['db']]:
+		e['direct'] = ('violation', '--db-params together with -k/--prefix that differ from the database\'s parameters was accepted',
+		               dict(impl=dict(so, cmd=obs.get('cmd')), model=sm, spec=sm))
+	return e
+
+
+def run_create(ctx, cases):
+	model = ctx.model([(1405, create_wire(c)) for c in cases])
 	pend = []
 	for c, m in zip(cases, model):
-		out = outpath()
-		ex, err, text = invoke(create_args(c, out))
-		steps, unid = [], None
-		if os.path.exists(out):
-			try:
-				with h5py.File(out, 'r') as f:
-					k = int(f.attrs['kmerspec_k'])
-					p = f.attrs['kmerspec_prefix']
-					p = p.decode('ascii') if isinstance(p, bytes) else str(p)
-					values, bounds = f['values'][:], f['bounds'][:]
-				got = [set(int(x) for x in values[bounds[i]:bounds[i + 1]]) for i in range(len(bounds) - 1)]
-				if 1 <= k <= 32 and p and all(ch in 'ACGT' for ch in p) and got == sigs_of('q', param_index(k, p)):
-					steps.append(('calc', 'q', param_index(k, p)))
-				else:
-					unid = f'file records parameters {(k, p)} but its signatures are not those of the genomes under them'
-			except Exception as e:
-				unid = f'unreadable output: {e!r}'
-			steps.append(('write',))
-			os.remove(out)
-		obs = dict(exit=ex, err=err, steps=steps, cmd=S.get('last_cmd'))
-		mr = dec_run(m)
-		if unid and ex == 0:
-			# the recorded parameters are not the ones the signatures were computed with: a later comparison
-			# against this file would be a silent mismatch
-			ctx.case(c, nontrivial=True)
-			ctx.violation('create', c, 'the signature file does not contain the signatures of its recorded parameters: ' + unid,
-			              impl=dict(summarise(obs), cmd=obs.get('cmd')), model=summarise(mr), spec=summarise(mr))
+		e = eval_create(c, m)
+		if 'direct' in e:
+			ctx.case(c, nontrivial=e['nt'])
+			ctx.violation('create', c, e['direct'][1], **e['direct'][2])
 			continue
-		nt = bool(c.get('db_params')) or c.get('k') is not None or c.get('prefix') is not None
-		so, sm = summarise(obs), summarise(mr)
-		if ex == 0 and sm['exit'] == 0 and so['calc'] != sm['calc']:
-			ctx.case(c, nontrivial=nt)
-			ctx.violation('create', c, 'signatures were computed with other parameters than the ones asked for '
-			              '(--db-params: the database\'s; -k/--prefix; else the default)', impl=dict(so, cmd=obs.get('cmd')), model=sm, spec=sm)
-			continue
-		if ex == 0 and sm['err'] == 'dbparams-excl' and c.get('db') is not None and \
-				(c['k'], c['prefix'].upper()) != PARAMS[c['db']]:
-			ctx.case(c, nontrivial=nt)
-			ctx.violation('create', c, '--db-params together with -k/--prefix that differ from the database\'s parameters was accepted',
-			              impl=dict(so, cmd=obs.get('cmd')), model=sm, spec=sm)
-			continue
-		judge(pend, c, obs, None, mr, False, None, nt, expect_refusal=False)
+		judge(pend, c, e['obs'], None, e['mr'], False, None, e['nt'], expect_refusal=False)
 	judge_batch(ctx, 'create', pend)
 
 
@@ -1106,7 +1421,481 @@ def run_api(ctx, cases):
 	judge_batch(ctx, 'api', pend)
 
 
-KINDS = {'kspec': run_kspec, 'dist': run_dist, 'query': run_query, 'tree': run_tree, 'create': run_create, 'api': run_api}
+# ---- one fresh process per script ------------------------------------------------------------------------------------
+#: what a script's process changes in the harness's own bookkeeping and hands back (files it made, parameter sets it registered)
+MIRROR = ('slots', 'sigfile', 'db', 'bad', 'n', 'rewrites', 'create_failed')
+
+
+def start_template_process():
+	"""fork, at the end of setup(), a process that holds the fixtures and has imported the implementation but has never
+	RUN any of it.  Every script of the sequence streams runs in a fork of that template: what its steps see of each
+	other is in the script and nothing else is -- in the campaign as in a replay.  (Forking the harness process itself
+	would hand the script whatever the cases before it left behind.)"""
+	import pickle
+	import select
+	import signal
+	import struct
+	import traceback
+	# import now what the scripts need, so that every fork starts with it
+	import click.testing, unittest.mock, h5py, numpy, hashlib   # noqa: E401,F401
+	import gambit.cli, gambit.query, gambit.db, gambit.sigs, gambit.seq, gambit.kmers, gambit.metric   # noqa: E401,F401
+	import gambit.cli.common, gambit.cli.dist, gambit.cli.query, gambit.cli.tree, gambit.cli.signatures   # noqa: E401,F401
+	if not hasattr(os, 'fork'):
+		return None
+	r1, w1 = os.pipe()
+	r2, w2 = os.pipe()
+	pid = os.fork()
+	if pid != 0:
+		os.close(r1)
+		os.close(w2)
+		return dict(pid=pid, to=os.fdopen(w1, 'wb'), back=os.fdopen(r2, 'rb'))
+	# ---- the template process: never returns
+	try:
+		os.close(w1)
+		os.close(r2)
+		fin, fout = os.fdopen(r1, 'rb'), os.fdopen(w2, 'wb')
+		while True:
+			try:
+				req = pickle.load(fin)
+			except EOFError:
+				break
+			r3, w3 = os.pipe()
+			cpid = os.fork()
+			if cpid == 0:
+				try:
+					os.close(r3)
+					try:
+						PARAMS[:] = req['PARAMS']
+						S.update(req['S'])
+						result = seq_script(req['case'], req['answers']) if req['fn'] == 'seq' else api_script(req['case'])
+						resp = dict(result=result, PARAMS=list(PARAMS), S={k: S[k] for k in MIRROR if k in S})
+					except BaseException:
+						resp = dict(error=traceback.format_exc()[-1500:])
+					with os.fdopen(w3, 'wb') as f:
+						pickle.dump(resp, f)
+				finally:
+					os._exit(0)
+			os.close(w3)
+			data, alive = b'', True
+			deadline = 600
+			while alive:
+				ready, _, _ = select.select([r3], [], [], deadline)
+				if not ready:
+					os.kill(cpid, signal.SIGKILL)
+					data = b''
+					break
+				chunk = os.read(r3, 1 << 16)
+				if not chunk:
+					alive = False
+				data += chunk
+			os.close(r3)
+			os.waitpid(cpid, 0)
+			fout.write(struct.pack('>Q', len(data)) + data)
+			fout.flush()
+	finally:
+		os._exit(0)
+
+
+def fresh_process(ctx, fn, case, answers):
+	"""run one script in a fork of the template process -> its result (None: the process died)"""
+	import pickle
+	import struct
+	z = S.get('template')
+	if z is None:
+		ctx.count('seq:scripts-run-in-the-harness-process (no fork on this platform)')
+		return seq_script(case, answers) if fn == 'seq' else api_script(case)
+	pickle.dump(dict(fn=fn, case=case, answers=answers, PARAMS=list(PARAMS), S={k: S[k] for k in MIRROR if k in S}), z['to'])
+	z['to'].flush()
+	head = z['back'].read(8)
+	if len(head) < 8:
+		S['template'] = None
+		raise RuntimeError('the template process of the sequence streams is gone')
+	data = z['back'].read(struct.unpack('>Q', head)[0])
+	if not data:
+		return None
+	resp = pickle.loads(data)
+	if 'error' in resp:
+		raise RuntimeError('harness error in a script process: ' + resp['error'])
+	PARAMS[:] = resp['PARAMS']
+	S.update(resp['S'])
+	return resp['result']
+
+
+def teardown(ctx):
+	z = S.get('template')
+	if z is not None:
+		S['template'] = None
+		try:
+			z['to'].close()
+			z['back'].close()
+			os.waitpid(z['pid'], 0)
+		except Exception:
+			pass
+
+
+# ---- kind: seq -- a script of command lines in ONE process over shared files --------------------------------------
+def seq_requests(step):
+	cmd, c = step['cmd'], resolved(step['c'])
+	if cmd == 'dist':
+		return [(1402, dist_wire(c)), (1406, dist_wire(c))]
+	if cmd == 'query':
+		return [(1403, [True] + query_wire(c)), (1407, query_wire(c))]
+	if cmd == 'tree':
+		return [(1404, tree_wire(c))]
+	if cmd == 'create':
+		return [(1405, create_wire(c))]
+	return [(1401, kspec_wire(c))]
+
+
+def state_diff(b, a):
+	def flat(d):
+		out = {}
+		for k, v in d.items():
+			if isinstance(v, dict):
+				out.update({f'{k}[{k2}]': v2 for k2, v2 in v.items()})
+			else:
+				out[k] = v
+		return out
+	b, a = flat(b), flat(a)
+	return {k: [b.get(k), a.get(k)] for k in sorted(set(a) | set(b)) if a.get(k) != b.get(k)}
+
+
+def outcome_of(e):
+	"""what two runs of the same step on the same inputs must agree in -> (discrete part, numbers)"""
+	import json
+	if 'kspec' in e:
+		return ['kspec', e['kspec']], None
+	if 'pipeline' in e:
+		return ['pipeline'], None
+	o = e['obs']
+	nums = e.get('result')
+	if isinstance(nums, str):
+		try:
+			nums = parse_dmat(nums)
+		except (ValueError, IndexError):
+			pass
+	return [0 if o['exit'] == 0 else 1, o['err'], json.dumps(summarise(o), sort_keys=True)], nums
+
+
+def same_numbers(a, b):
+	if isinstance(a, list) and isinstance(b, list):
+		return len(a) == len(b) and all(same_numbers(x, y) for x, y in zip(a, b))
+	if isinstance(a, float) and isinstance(b, float):
+		return abs(a - b) <= TOL
+	return a == b
+
+
+def seq_script(case, answers):
+	"""run the steps of one script (in a process of its own, see fresh_process) -> one dict per step, as the evaluators
+	of the single-call kinds return them, plus 'touched': what the step changed that it had no business changing"""
+	base = process_state()
+	steps = []
+	try:
+		for st, a in zip(case['steps'], answers):
+			cmd, c0 = st['cmd'], st['c']
+			c = resolved(c0)
+			S['watch'] = []
+			if cmd == 'dist':
+				e = eval_dist(c0, c, a[0], a[1])
+			elif cmd == 'query':
+				e = eval_query(c0, c, a[0], a[1])
+			elif cmd == 'tree':
+				e = eval_tree(c, a[0])
+			elif cmd == 'create':
+				e = eval_create(c, a[0])
+			else:
+				impl, nt, finding = eval_kspec(c0, a[0])
+				e = dict(kspec=impl, nt=nt, finding=finding)
+			e['touched'] = list(S['watch'])
+			now = process_state()
+			if now != base:
+				e['touched'].append('process-wide state every later command reads its defaults from was changed: ' + str(state_diff(base, now))[:400])
+				base = now
+			steps.append(e)
+	finally:
+		S['watch'] = None
+	return steps
+
+
+def run_seq(ctx, cases):
+	"""every step is ONE command line (or one kspec_from_params call) judged exactly like a case of its single-call
+	kind (same evaluator, same verdict()); on top of that: what the command was handed is unchanged, process-wide
+	defaults are unchanged, the same step repeated later in the script has the same outcome.  Every script runs in a
+	process of its own that has never run any of the implementation before: whatever its steps see of each other is
+	in the script, and a replay of the script starts from the same state"""
+	import gc
+	import json
+	reqs, where = [], []
+	for ci, case in enumerate(cases):
+		for si, st in enumerate(case['steps']):
+			r = seq_requests(st)
+			where.append((ci, si, len(r)))
+			reqs += r
+	ans = ctx.model(reqs)
+	A, pos = {}, 0
+	for ci, si, n in where:
+		A[(ci, si)] = ans[pos:pos + n]
+		pos += n
+	runs = []
+	rewrites0 = S.get('rewrites', 0)
+	for ci, case in enumerate(cases):
+		steps = fresh_process(ctx, 'seq', case, [A[(ci, si)] for si in range(len(case['steps']))])
+		if steps is None:
+			steps = [dict(pipeline='the process running the script died or ran out of time')] * len(case['steps'])
+		runs.append(steps)
+	gc.collect()   # finalise the commands' SQLite sessions in this thread, not in a model-driver worker thread
+	flat = [(ci, si) for ci, steps in enumerate(runs) for si, e in enumerate(steps) if 'obs' in e]
+	oks = dict(zip(flat, ctx.model([(1408, w_obs(runs[ci][si]['obs']['exit'], runs[ci][si]['obs']['steps'])) for ci, si in flat])))
+	ctx.count('seq:files-rewritten-in-place-between-steps', S.get('rewrites', 0) - rewrites0)
+	for ci, case in enumerate(cases):
+		steps, n = runs[ci], len(runs[ci])
+		script = [e['obs'].get('cmd') if 'obs' in e else f'kspec_from_params {case["steps"][si]["c"]}' if 'kspec' in e else '(not run)'
+		          for si, e in enumerate(steps)]
+		findings = []
+		for si, e in enumerate(steps):
+			tag = f'step {si + 1} of {n} ({case["steps"][si]["cmd"]}): '
+			ctx.count('seq:steps')
+			if 'pipeline' in e:
+				findings.append(('broke', 'seq: pipeline', e['pipeline']))
+				continue
+			if 'kspec' in e:
+				f = e['finding']
+			elif 'direct' in e:
+				f = e['direct']
+			else:
+				f = verdict('seq', dict(step=si + 1, **case), e['obs'], e['unid'], e['mr'], e['wf'], e['spec'], e['expect_refusal'], e['domain'], oks[(ci, si)])
+				if e['obs']['exit'] != 0:
+					ctx.count('seq:steps-failed:' + ('mismatch-refused' if e['obs']['err'] in MISMATCH else
+					                                 'part-way (bad input in the middle)' if case['steps'][si]['c'].get('bad') else
+					                                 'exception' if str(e['obs']['err']).startswith('exception') else 'usage'))
+				elif not e['unid']:
+					ctx.count('seq:steps-output-recognised')
+			if f is not None and f[0] == 'violation':
+				findings.append(('violation', tag + f[1], dict(f[2], script=script)))
+			elif f is not None:
+				findings.append(('broke', 'seq: ' + f[1], tag + str(f[2])))
+			for t in e['touched']:
+				findings.append(('violation', tag + t, dict(impl=t, spec='a command leaves its inputs and the process-wide defaults as it found them', script=script)))
+		seen = {}
+		for si, e in enumerate(steps):
+			key = json.dumps(case['steps'][si], sort_keys=True)
+			if key not in seen:
+				seen[key] = si
+				continue
+			ctx.count('seq:steps-repeated-and-compared')
+			(d1, n1), (d2, n2) = outcome_of(steps[seen[key]]), outcome_of(e)
+			if d1 != d2 or not same_numbers(n1, n2):
+				findings.append(('violation', f'step {si + 1} of {n} repeats step {seen[key] + 1} (same command line, same inputs) with another outcome: '
+				                 f'{d1} -> {d2}' + ('' if same_numbers(n1, n2) else f'; numbers {str(n1)[:150]} -> {str(n2)[:150]}'),
+				                 dict(impl=dict(first=[d1, n1], again=[d2, n2]), spec='same call, same result', script=script)))
+		ctx.case(case, nontrivial=n >= 2 and any(e.get('nt') for e in steps))
+		vs = [f for f in findings if f[0] == 'violation']
+		for f in vs[:2]:
+			ctx.violation('seq', case, f[1], **f[2])
+		if not vs:
+			for f in findings[:2]:
+				ctx.broke(f[1], f'case {case}: {f[2]}')
+
+
+# ---- kind: apiseq -- a script of query_parse calls over shared Python objects ---------------------------------------
+class RaisingFiles(list):
+	"""a caller-supplied sequence of files that raises while it is being iterated (after its first item)"""
+	def __iter__(self):
+		for i, x in enumerate(list.__iter__(self)):
+			if i == 1:
+				raise RuntimeError('c14: the caller\'s sequence of files failed')
+			yield x
+
+
+def api_script(case):
+	"""run one script of query_parse calls (in a process of its own, optionally in a second thread of it) -> one dict per call"""
+	import threading
+	from unittest import mock
+	from gambit.db import ReferenceDatabase, load_genomeset
+	from gambit.sigs import load_signatures
+	from gambit.query import query_parse, QueryParams
+	from gambit.seq import SequenceFile
+
+	def db_fields(db):
+		ks = db.signatures.kmerspec
+		return [repr(ks.k), repr(ks.prefix), len(db.signatures), [int(i) for i in db.sig_indices], [str(g.genome.key) for g in db.genomes],
+		        str(db.genomeset.key), repr(db.signatures.meta.id)]
+
+	def load(spec):
+		d = db_dir(pidx(spec['db']), spec.get('dbv'))
+		if spec.get('load') == 'files':
+			return ReferenceDatabase.load(*ReferenceDatabase.locate_files(d))
+		if spec.get('load') == 'ctor':
+			gdb, gs = ReferenceDatabase.locate_files(d)
+			session, gset = load_genomeset(gdb)
+			return ReferenceDatabase(gset, load_signatures(gs))
+		return ReferenceDatabase.load_from_dir(d)
+
+	def script(case, out):
+		dbs = []
+		try:
+			dbs = [load(spec) for spec in case['dbs']]
+			files = SequenceFile.from_paths(S['files']['q'], 'fasta', 'auto')
+			missing = SequenceFile.from_paths([S['files']['q'][0], os.path.join(S['W'], 'no_such_genome_q.fasta'), S['files']['q'][1]], 'fasta', 'auto')
+			raising = RaisingFiles(files)
+			labels = [f'label{i}' for i in range(len(files))]
+			short_labels = labels[:1]
+			P = [QueryParams(chunksize=1, report_closest=1), QueryParams(classify_strict=True, chunksize=None), QueryParams()]
+			K = [dict(concurrency=None), dict(concurrency='threads', max_workers=2), {}]
+
+			def snapshot():
+				return dict(files=[[str(f.path), f.format, f.compression] for f in files],
+				            files_bad=[[str(f.path), f.format, f.compression] for f in missing] + [len(raising)],
+				            labels=list(labels) + ['|'] + list(short_labels), params=[{k: repr(v) for k, v in vars(p).items()} for p in P],
+				            parse_kw=[{k: repr(v) for k, v in d.items() if k != 'progress'} for d in K],
+				            databases=[db_fields(db) for db in dbs])
+			base = snapshot()
+			for st in case['steps']:
+				e = dict(ex=0, err=None, vec=None, touched=[])
+				args = [dbs[st['db']], dict(list=files, tuple=tuple(files), missing=missing, raises=raising).get(st.get('files') or 'list', files)]
+				kw = {}
+				if st.get('p') == 'kw':
+					kw.update(classify_strict=True, chunksize=2)
+				elif st.get('p') is not None and st.get('pas') == 'kw':
+					kw['params'] = P[st['p']]
+				elif st.get('p') is not None:
+					args.append(P[st['p']])
+				if st.get('labels'):
+					kw['file_labels'] = short_labels if st['labels'] == 'short' else labels
+				if st.get('pk') is not None:
+					kw['parse_kw'] = K[st['pk']]
+					had_progress = 'progress' in K[st['pk']]
+				try:
+					with mock.patch('os.cpu_count', return_value=1):
+						res = query_parse(*args, **kw)
+					e['vec'] = [[float(it.classifier_result.closest_match.distance)] for it in res.items]
+					e['res'] = res
+				except Exception as x:
+					e['ex'], e['err'] = 1, 'exception:' + type(x).__name__
+				if st.get('pk') is not None and not had_progress and 'progress' in K[st['pk']]:
+					e['progress_written'] = True
+				now = snapshot()
+				if now != base:
+					e['touched'].append('objects the caller handed to query_parse were changed by it: ' + str(state_diff(base, now))[:400])
+					base = now
+				out.append(e)
+			# results handed out earlier must still say what they said
+			for e in out:
+				if e.get('res') is not None:
+					again = [[float(it.classifier_result.closest_match.distance)] for it in e['res'].items]
+					if again != e['vec']:
+						e['touched'].append(f'the result object returned by this call changed afterwards: {e["vec"]} -> {again}')
+		except Exception as x:
+			out.append(dict(crash=f'{type(x).__name__}: {x}'))
+		finally:
+			for e in out:
+				e.pop('res', None)
+			for db in dbs:
+				try:
+					db.session.close()
+					db.signatures.close()
+				except Exception:
+					pass
+
+	out = []
+	if case.get('thread'):
+		t = threading.Thread(target=script, args=(case, out))
+		t.start()
+		t.join()
+	else:
+		script(case, out)
+	return out
+
+
+def run_apiseq(ctx, cases):
+	"""gambit.query.query_parse called several times over the SAME database objects, QueryParams objects, parse_kw
+	dicts, list of files and list of labels; every call judged like a case of kind 'api'.  One process per script"""
+	import gc
+	import json
+
+	def pi_of(case, st):
+		return pidx(case['dbs'][st['db']]['db'])
+
+	bad_files = ('missing', 'raises')
+	model = ctx.model([(1403, [True, True, False, [], w_ksopt(pi_of(case, st))]) for case in cases for st in case['steps']])
+	runs = []
+	for case in cases:
+		out = fresh_process(ctx, 'apiseq', case, None)
+		if case.get('thread'):
+			ctx.count('apiseq:scripts-run-in-a-second-thread')
+		runs.append(out if out is not None else [dict(crash='the process running the script died or ran out of time')])
+	gc.collect()
+	obs_all = []
+	for case, out in zip(cases, runs):
+		for st, e in zip(case['steps'], out):
+			if 'crash' in e:
+				continue
+			steps, unid = [], None
+			if e['ex'] == 0:
+				steps, unid = recognise_query(dict(src=['files'], sp=None, db=pi_of(case, st)), e['vec'])
+			e['obs'] = dict(exit=e['ex'], err=e['err'], steps=steps,
+			                cmd='query_parse(' + ', '.join(f'{k}={v}' for k, v in st.items()) + f', kmerspec of db={PARAMS[pi_of(case, st)]})')
+			e['unid'] = unid
+			obs_all.append(e)
+	oks = ctx.model([(1408, w_obs(e['obs']['exit'], e['obs']['steps'])) for e in obs_all])
+	for e, ok in zip(obs_all, oks):
+		e['ok'] = ok
+	mi = 0
+	for case, out in zip(cases, runs):
+		n = len(case['steps'])
+		ms = model[mi:mi + n]
+		mi += n
+		ctx.case(case, nontrivial=n >= 2)
+		findings = []
+		if len(out) != n or any('crash' in e for e in out):
+			ctx.broke('apiseq: harness', f'case {case}: the script did not run to its end: {[e.get("crash") for e in out if "crash" in e]}')
+			continue
+		script_txt = [e['obs']['cmd'] for e in out]
+		for si, (st, e, m) in enumerate(zip(case['steps'], out, ms)):
+			tag = f'step {si + 1} of {n}: '
+			ctx.count('apiseq:steps')
+			expected_failure = st.get('files') in bad_files or st.get('labels') == 'short'
+			if e.get('progress_written'):
+				ctx.count('apiseq:parse_kw-gained-a-progress-key (code as found writes it into the caller\'s dict; not a k-mer parameter, not judged)')
+			if expected_failure:
+				ctx.count('apiseq:steps-failing-part-way')
+				if e['ex'] == 0:
+					# files that cannot be read, labels that do not fit: whatever came back was not computed from the caller's input
+					f = ('broke', 'apiseq: a call on unreadable input returned a result', f'{e["obs"]}')
+				else:
+					f = verdict('apiseq', dict(step=si + 1, **case), e['obs'], None, dec_run(m), False, None, False, False, e['ok'])
+			else:
+				f = verdict('apiseq', dict(step=si + 1, **case), e['obs'], e['unid'], dec_run(m), True, pi_of(case, st), None, True, e['ok'])
+				if e['ex'] == 0 and not e['unid']:
+					ctx.count('apiseq:steps-output-recognised')
+			if f is not None and f[0] == 'violation':
+				findings.append(('violation', tag + f[1], dict(f[2], script=script_txt)))
+			elif f is not None:
+				findings.append(('broke', 'apiseq: ' + f[1], tag + str(f[2])))
+			for t in e['touched']:
+				findings.append(('violation', tag + t, dict(impl=t, spec='query_parse leaves the caller\'s objects as it found them', script=script_txt)))
+		seen = {}
+		for si, (st, e) in enumerate(zip(case['steps'], out)):
+			key = json.dumps(st, sort_keys=True)
+			if key not in seen:
+				seen[key] = si
+				continue
+			ctx.count('apiseq:steps-repeated-and-compared')
+			f0 = out[seen[key]]
+			if (f0['ex'], f0['err']) != (e['ex'], e['err']) or not same_numbers(f0['vec'], e['vec']):
+				findings.append(('violation', f'step {si + 1} of {n} repeats step {seen[key] + 1} (same call, same objects) with another result: '
+				                 f'{[f0["ex"], f0["err"], f0["vec"]]} -> {[e["ex"], e["err"], e["vec"]]}',
+				                 dict(impl=dict(first=[f0['ex'], f0['err'], f0['vec']], again=[e['ex'], e['err'], e['vec']]), spec='same call, same result', script=script_txt)))
+		vs = [f for f in findings if f[0] == 'violation']
+		for f in vs[:2]:
+			ctx.violation('apiseq', case, f[1], **f[2])
+		if not vs:
+			for f in findings[:2]:
+				ctx.broke(f[1], f'case {case}: {f[2]}')
+
+
+KINDS = {'kspec': run_kspec, 'dist': run_dist, 'query': run_query, 'tree': run_tree, 'create': run_create, 'api': run_api,
+         'seq': run_seq, 'apiseq': run_apiseq}
 
 
 # ---- generators ---------------------------------------------------------------------------------
@@ -1389,7 +2178,228 @@ def gen_api(ctx, n):
 		           parse_kw=rng.choice([None, 'serial', 'serial', 'threads', 'empty']), files_as=rng.choice(['list', 'tuple']))
 
 
+# ---- generators of the sequence streams (statefulness and aliasing audit) --------------------------------------------
+def seq_param_sets(rng, min_k=1):
+	"""three parameter sets a script moves between, as case references: core sets (index) or a random set, one that
+	differs from it in ONE prefix letter only (same k, same lengths: what a cache keyed by k, by the lengths or by the
+	data type cannot tell apart) and one more neighbour (k+-1, other width, other prefix length ...)"""
+	if rng.random() < 0.4:
+		return rng.sample(range(NCORE), 3)
+	while True:
+		A = rand_params(rng)
+		k, p = A
+		i = rng.randrange(len(p))
+		B = rng.choice([(k, p[:i] + rng.choice([x for x in 'ACGT' if x != p[i]]) + p[i + 1:]), (k, revcomp(p)), (k, p[::-1])])
+		if B == A:
+			continue
+		P = [A, B, neighbour(rng, *A)]
+		if all(k >= min_k for k, _ in P) and len(set(P)) == 3:
+			return [list(x) for x in P]
+
+
+def seq_refs(rng, P, near=None):
+	"""the parameter sets behind the query side, the reference side and the options of one step: all the same in half
+	of the steps (the command has something to compute), else independent; near: those of an earlier step with ONE changed"""
+	if near is not None and rng.random() < 0.6:
+		refs = list(near)
+		i = rng.randrange(3)
+		refs[i] = rng.choice([x for x in P if x != refs[i]])
+		return refs
+	if rng.random() < 0.5:
+		return [rng.choice(P)] * 3
+	return [rng.choice(P) for _ in range(3)]
+
+
+def kp_of(ref):
+	return PARAMS[pidx(ref)]
+
+
+def seq_step(shape, refs, share, focus=None):
+	"""one command line (or kspec_from_params call).  shape: a number that fixes everything about the step except the
+	parameter sets (which command, which kinds of source, which options, whether an input is unreadable) -- two steps of
+	one shape with other refs are the SAME command line over the same paths with other parameters behind them;
+	refs = (X, Y, Z): references to the parameter sets of the query side, the reference side, the options;
+	share: pre-computed signatures and the database are read from ONE path each, rewritten in place whenever the step
+	wants other parameters there"""
+	import random
+	rng = random.Random(shape)
+	X, Y, Z = refs
+	cmd = rng.choice(['dist'] * 9 + ['query'] * 6 + ['create'] * 2 + ['tree'] * 2 + ['kspec'] * 2)
+	cmd = focus or cmd
+	bad = rng.random() < 0.14
+	if cmd == 'dist':
+		q = rng.choice([['qs'], ['qs'], ['qs'], ['q'], ['ql']])
+		r = rng.choice([['rs'], ['rs'], ['db'], ['db'], ['r'], ['rl'], ['square']])
+		opts = rng.choice([None, None, None, X, Y, Z])
+		k, prefix = (None, None) if opts is None else kp_of(opts)
+		c = dict(q=q, qp=X if 'qs' in q else None, r=r, rp=Y if 'rs' in r else None,
+		         db=Y if 'db' in r else rng.choice([None, None, Z]), k=k, prefix=prefix)
+		if prefix is not None and rng.random() < 0.2:
+			c['prefix'] = prefix.lower()
+		if rng.random() < 0.06:
+			c['prefix'] = None if c['k'] is not None else 'AT'   # one of -k / --prefix alone: a usage error
+		if share:
+			c.update({f: 0 for f, on in (('qslot', 'qs' in q), ('rslot', 'rs' in r), ('dbslot', c['db'] is not None)) if on})
+		if bad:
+			kinds = [b for b, on in (('qs-trunc', 'qs' in q), ('rs-trunc', 'rs' in r), ('ql-missing', 'ql' in q), ('rl-missing', 'rl' in r)) if on]
+			if kinds:
+				c['bad'] = rng.choice(kinds)
+	elif cmd == 'query':
+		src = rng.choice([['sig'], ['sig'], ['sig'], ['files'], ['list']])
+		c = dict(src=src, sp=X if 'sig' in src else None, db=Y)
+		if share:
+			c['dbslot'] = 0
+			if 'sig' in src:
+				c['sslot'] = 0
+		if rng.random() < 0.3:
+			c['form'] = dict(outfmt=rng.choice(['json', 'archive']))
+		if bad:
+			c['bad'] = rng.choice(['db-trunc'] + (['s-trunc', 's-trunc'] if 'sig' in src else ['l-missing'] if 'list' in src else []))
+	elif cmd == 'create':
+		mode = rng.choice(['default', 'options', 'db', 'db', 'both'])
+		k, prefix = kp_of(X) if mode in ('options', 'both') else (None, None)
+		c = dict(src=rng.choice([['files'], ['list']]), k=k, prefix=prefix, db_params=mode in ('db', 'both'),
+		         db=Y if mode in ('db', 'both') or rng.random() < 0.3 else None)
+		if share and c['db'] is not None:
+			c['dbslot'] = 0
+	elif cmd == 'tree':
+		src = rng.choice([['files'], ['list'], ['sig']])
+		k, prefix = kp_of(Y) if rng.random() < 0.5 else (None, None)
+		c = dict(src=src, sp=X if 'sig' in src else None, k=k, prefix=prefix)
+		if share and 'sig' in src:
+			c['sslot'] = 0
+	else:
+		k, prefix = kp_of(X)
+		c = rng.choice([dict(k=k, prefix=prefix, default=False), dict(k=k, prefix=prefix, default=False), dict(k=k, prefix=prefix.lower(), default=True),
+		                dict(k=None, prefix=None, default=True), dict(k=None, prefix=None, default=False), dict(k=k, prefix=None, default=True)])
+	return dict(cmd=cmd, c=c)
+
+
+def script_order(rng, nbase):
+	"""2-6 positions over nbase base steps: every base step occurs, and from three positions on one of them occurs again
+	after another one (A B A)"""
+	n = rng.choice([2, 3, 3, 4, 4, 5, 6])
+	order = list(range(min(nbase, n)))
+	rng.shuffle(order)
+	while len(order) < n:
+		order.append(rng.choice([i for i in range(nbase) if i != order[-1]] or [0]))
+	return order
+
+
+def expected_to_fail(step):
+	"""does the generator expect this step to end with an error (differing parameter sources, an unreadable input, a usage
+	error)?  Only steers the generator -- every step is judged by what it does"""
+	cmd, c = step['cmd'], step['c']
+	if c.get('bad') or (c.get('k') is None) != (c.get('prefix') is None):
+		return True
+	opts = [(c['k'], c['prefix'].upper())] if c.get('k') is not None else []
+	if cmd == 'dist':
+		srcs = [kp_of(c[f]) for f, on in (('qp', 'qs' in c['q']), ('rp', 'rs' in c['r']), ('db', 'db' in c['r'])) if on and c[f] is not None] + opts
+		return len(set(srcs)) > 1 or ('db' in c['r'] and c['db'] is None)
+	if cmd == 'query':
+		return 'sig' in c['src'] and kp_of(c['sp']) != kp_of(c['db'])
+	if cmd == 'create':
+		return bool(c.get('db_params')) and bool(opts)
+	return False
+
+
+def gen_seq(ctx, n):
+	import copy
+	rng = ctx.rng
+	made = 0
+	while made < n:
+		# tiny k (<= 4) is left to the single-call streams: its 8-bit signatures are refused by the distance kernel
+		P = seq_param_sets(rng, min_k=5)
+		share = rng.random() < 0.75
+		# state tends to live in one command's module: most scripts stay with one command (every kind of source and option
+		# of it, failing and succeeding), the others mix all of them
+		focus = rng.choice(['dist'] * 8 + ['query'] * 4 + ['kspec', 'kspec', 'tree', 'create'] + [None] * 5)
+
+		def draw(want_failure):
+			for _ in range(40):
+				refs = seq_refs(rng, P) if want_failure else [rng.choice(P)] * 3
+				st = seq_step(rng.randrange(2 ** 30), refs, share, focus)
+				if expected_to_fail(st) == want_failure:
+					return st
+			return None
+
+		base, order = [], None
+		if rng.random() < 0.4:
+			# a call that fails (refused, or part-way: an input that cannot be read), then a good call -- of another shape or
+			# the one that ran before the failure -- in the same process over the same paths
+			F, G1, G2 = draw(True), draw(False), draw(False)
+			if None not in (F, G1, G2) and G1 != G2:
+				base = [F, G1, G2]
+				order = rng.choice([[1, 0, 1], [0, 1], [1, 0, 2], [0, 2, 0, 1], [1, 0, 2, 1], [0, 1, 2], [1, 2, 0, 2, 1]])
+		if order is None:
+			shapes = []
+			for _ in range(12):
+				# more often than not the next base step is an earlier one over again with other parameter sets behind the
+				# same paths and options (what a cache keyed by path / by k / by the option values cannot tell apart)
+				if shapes and rng.random() < 0.6:
+					shape, near = rng.choice(shapes)
+				else:
+					shape, near = rng.randrange(2 ** 30), None
+				refs = seq_refs(rng, P, near)
+				st = seq_step(shape, refs, share, focus)
+				if st not in base:
+					shapes.append((shape, refs))
+					base.append(st)
+				if len(base) >= 3 or (len(base) == 2 and rng.random() < 0.5):
+					break
+			order = script_order(rng, len(base))
+		for o in ([order, order[::-1]] if rng.random() < 0.5 and order != order[::-1] else [order]):
+			made += 1
+			steps = [copy.deepcopy(base[i]) for i in o]
+			if len(steps) <= 4 and rng.random() < 0.5:
+				# two direct calls of kspec_from_params (what every -k/--prefix goes through) with two of the script's
+				# parameter sets, anywhere between the command lines: they cost nothing
+				for ref in rng.sample(P, 2):
+					k, prefix = kp_of(ref)
+					steps.insert(rng.randrange(len(steps) + 1), dict(cmd='kspec', c=dict(k=k, prefix=prefix, default=rng.random() < 0.3)))
+			yield dict(steps=steps)
+
+
+def gen_apiseq(ctx, n):
+	rng = ctx.rng
+	for _ in range(n):
+		P = seq_param_sets(rng, min_k=5)
+		dbs = [dict(db=ref, dbv=rng.choice(DB_VARIANTS + ('extra', 'extra')), load=rng.choice(['dir', 'files', 'ctor']))
+		       for ref in P[:rng.choice([2, 2, 3])]]
+		shared = rng.random() < 0.7
+		sp, spas, spk = rng.choice([None, 0, 1, 2]), rng.choice(['pos', 'kw']), rng.choice([0, 0, 1, 2])
+		base = []
+		for i in range(rng.choice([2, 2, 3])):
+			st = dict(db=i % len(dbs), p=sp if shared else rng.choice([None, 0, 1, 2, 'kw']), pas=spas if shared else rng.choice(['pos', 'kw']),
+			          pk=spk if shared else rng.choice([None, 0, 1, 2]), labels=rng.choice([False, True, True]),
+			          files=rng.choice(['list', 'list', 'list', 'tuple']))
+			base.append(st)
+		if rng.random() < 0.6:
+			st = dict(rng.choice(base))
+			if rng.random() < 0.3:
+				st['labels'] = 'short'
+			else:
+				st['files'] = rng.choice(['missing', 'missing', 'raises'])
+			base.append(st)
+		order = script_order(rng, len(base))
+		yield dict(dbs=dbs, steps=[dict(base[i]) for i in order], thread=rng.random() < 0.3)
+
+
 def generate(ctx):
+	# ---- streams added by the statefulness / aliasing audit (see "state and aliasing" in the module docstring).  They run
+	# FIRST and at once (not queued behind the other kinds): hidden state that breaks a later single call is then reported
+	# with a script that carries its own history -- a single-call case that fails only because of what ran before it does
+	# not reproduce from its replay file
+	cases = []
+	for c in gen_seq(ctx, ctx.pick(48, 600)):
+		ctx.count('stream:seq-command-lines-over-shared-files')
+		cases.append(c)
+	run_seq(ctx, cases)
+	cases = []
+	for c in gen_apiseq(ctx, ctx.pick(16, 240)):
+		ctx.count('stream:seq-query_parse-over-shared-objects')
+		cases.append(c)
+	run_apiseq(ctx, cases)
 	for c in gen_kspec(ctx, ctx.pick(300, 3000)):
 		ctx.count('stream:kspec')
 		yield 'kspec', c
